@@ -1006,7 +1006,8 @@ func genKflFuzz(r *Rand, tier string, emit func(sx.Sx)) {
 	}
 	xmlQueries := []string{`redact("x.xml().r")`, `redact("x.xml().r.s")`, `redact("x.xml().nosuch")`, `redact("x.xml().r.nosuch")`, `redact("x.xml()")`,
 		`redact("x.xml().envelope")`, `redact("x.xml().envelope.body.card")`, `redact("x.xml().r.s[0]")`, `redact("x.xml().r.-a")`, `redact("x.xml()..s")`,
-		`redact("x.xml().r", "x.xml().r.s")`, `x.xml().r.s == "t"`, `x.xml().r == "t"`, `x.xml().envelope.body.card == "4111"`, `x.xml().r.s[1] == "w"`}
+		`redact("x.xml().r", "x.xml().r.s")`, `redact("x.xml().r.s[-1]")`, `redact("x.xml().r[-1].s")`, `redact("x.xml().r.s[99]")`, `redact("x.xml().r.s[1].-u")`,
+		`redact("x.xml().r.s[x]")`, `redact("x.xml().r.s[")`, `redact("x.xml().r.s[1:2]")`, `x.xml().r.s[-1] == "w"`, `x.xml().r.s == "t"`, `x.xml().r == "t"`, `x.xml().envelope.body.card == "4111"`, `x.xml().r.s[1] == "w"`}
 	for _, d := range xmlDocs {
 		for _, enc := range []bool{false, true} {
 			v := d
